@@ -1,8 +1,8 @@
 SPECIFICATION Spec
 CONSTANTS
   Deviations <- AllDevs
-  Fams <- FamsAll
-  Modes <- ModesAll
+  Fams <- FamsGelu
+  Modes <- ModesChain
   Big = FALSE
 INVARIANT NeverUnsound
 CHECK_DEADLOCK FALSE
